@@ -8,6 +8,7 @@ import world
 import worldscen as ws
 import execbody
 import cmdstatus
+import execseq
 
 R = '@R@'
 ALPHA = [' ', "'", '\\"', '*', '?', '$', '`', ';', '|', '&', '<', '>', '(', ')', '\t', '\n', 'a', 'b', '-', '=', '\xe9', '\xff', '#', '%s', '{', '}', '[', ']', '!', '..', '/']
@@ -184,6 +185,9 @@ def run(rep):
     # "all exit statuses/signals": every way a program can end or fail to start, as a `command` condition and as an `exec` action
     # (tools/cmdstatus.py: real binary judged by the documented meaning, and the real evaluator in-process against Model.eval)
     status_cov = cmdstatus.stage(rep, sc, tools, W, random.Random(rep.seed + 3))
+    # what a command reads on standard input across ACTION SEQUENCES (rewrites, renames, copies before / between / after the commands):
+    # tools/execseq.py, shared with C11
+    seq_cov = execseq.stage(rep, tools, W, focus='all')
     if corr_bad and not rep.violations:
         rep.violation({'obligation': 'correspondence: an exec scenario does not follow Model.mainP', 'disagreements': len(corr_bad), 'examples': corr_bad[:6]}, False)
     vlib.lean_conclude(rep)
@@ -201,6 +205,7 @@ def run(rep):
         'correspondence_mismatches': len(corr_bad),
         'stdin_under_write_faults': fault_cov,
         'command_status_family': status_cov,
+        'stdin_across_action_sequences': seq_cov,
     })
 
 
@@ -215,4 +220,6 @@ def replay(rep, path):
     if j.get('stage') == 'cmdstatus':
         tools = proc.Tools(sc)
         cmdstatus.replay_process(tools, world.WorldCheck(sc, tools), j)
+    if j.get('stage') == 'execseq':
+        execseq.replay(proc.Tools(sc), j)
     rep.coverage.update({'evaluations': 1, 'distinct_nontrivial': 1})
